@@ -519,7 +519,9 @@ pub fn main(args: &[String]) {
             let all: Vec<(&str, &str, &str)> = SHUFFLES.iter().map(|(f, c)| (*f, "", *c)).chain(EP_DECLINED.iter().cloned()).collect();
             for (gi, (fen, prefix, cyc)) in all.iter().enumerate() {
                 let c: Vec<&str> = cyc.split_whitespace().collect();
-                let mut game = Game::from_board(crate::trace::parse_fen(fen).setup(), 1 + (gi % 3) as u8);
+                // (plain shuffles at depth 1 / 2, the declined-en-passant ones at depth 2 / 3)
+                let depth = if prefix.is_empty() { 1 + (gi % 2) as u8 } else { 2 + (gi % 2) as u8 };
+                let mut game = Game::from_board(crate::trace::parse_fen(fen).setup(), depth);
                 tr.reset(&game);
                 let mut ply = 0;
                 let mut ok = true;
